@@ -146,7 +146,11 @@ template <class T, class S0, class S1, class S2> struct MU : UniverseBase {
         int dd[4]; dims_of(sh, dd);
         int ix[4] = {0, 0, 0, 0}; for (int k = 0; k < R; ++k) { int pos = (int)(st.a[A_I0 + k] % (uint32_t)dd[k]); ix[k] = ((st.a[A_X] >> k) & 1) ? pos - dd[k] : pos; }
         int rg[10]; for (int k = 0; k < 3; ++k) { int N = dd[k]; int f = (int)(st.a[A_I0 + 2 * k] % (uint32_t)N); int stp = 1 + (int)(st.a[A_I0 + 2 * k + 1] % 2); int mc = (N - f + stp - 1) / stp; int cnt = 1 + (int)((st.a[A_I0 + 2 * k + 1] / 2) % (uint32_t)mc);
-            rg[3 * k] = f; rg[3 * k + 1] = std::min(N, f + cnt * stp); rg[3 * k + 2] = stp; }
+            int l = std::min(N, f + cnt * stp);
+            // documented end-relative encodings of the bounds (as in viewsim): last == -1 means N; a negative bound b means b + N + 1
+            uint32_t e = (st.a[A_X] >> (12 + 2 * k)) & 3;
+            if (e == 1 && l == N) l = -1; else if (e == 2) l = l - N - 1; else if (e == 3) { l = l - N - 1; f = f - N - 1; }
+            rg[3 * k] = f; rg[3 * k + 1] = l; rg[3 * k + 2] = stp; }
         rg[9] = (int)(st.a[A_X] >> 8);
         int mv = (int)(st.a[A_RHS] % 5);
         // results of reading kinds
